@@ -220,17 +220,26 @@ def _run(ctx: Ctx, box):
     clear_typelib_caches()
     for k, c in enumerate(cases):
         deep = ndeep and k % max(1, len(cases) // ndeep) == 0
-        observe_case(c["topo"], c["root"], k % 5, depths + ([50, 150] if deep else []), events, meta)
-    depths = depths if quick else depths + [50, 150]
+        n0 = len(meta)
+        observe_case(c["topo"], c["root"], k % 5, depths + ([50, 100, 150] if deep else []), events, meta)
+        for m in meta[n0:]:
+            m["case_id"] = k
+    depths = depths if quick else depths + [50, 100, 150]
     slim = events
     tres, rejects = tlc.validate_trace("Member_Trace", "Member_Trace.cfg", slim, timeout=7200)
     viol = []
+    bad_depths: dict = {}
+    for r in rejects:
+        m = meta[r["rej"] - 1]
+        bad_depths.setdefault(m.get("case_id"), set()).add(m["depth"])
     for r in rejects:
         m = meta[r["rej"] - 1]
         kinds = sorted({ft[0] for fs in m["topo"] for ft in fs})
         viol.append(Violation(clause=r["clause"], case=m,
                               fields={"what": m["what"].rstrip("0123456789"), "root_kind": m["root"][0], "kinds": kinds,
-                                      "flavours": m["variant"], "deep": m["depth"] >= 50},
+                                      "flavours": m["variant"], "deep": m["depth"] >= 50, "depth": m["depth"],
+                                      # the same case converted correctly at every smaller depth (up to 100 levels)
+                                      "only_at_this_depth": bad_depths.get(m.get("case_id")) == {m["depth"]},
                               msg=json.dumps(m)[:300]))
     nontrivial = {json.dumps([m["topo"], m["root"], m["depth"]]) for m in meta if m["depth"] >= 1}
     box["out"] = Outcome(
